@@ -576,7 +576,7 @@ class Interp:
         raise Inconclusive('discriminant of %r' % (v,))
 
     def aggregate(self, path, fields, fr, dest_ty):
-        key = (path, dest_ty)
+        key = (path, dest_ty, self.cur_body.name.split('::', 1)[0] if getattr(self, 'cur_body', None) is not None else None)
         info = self._agg_cache.get(key)
         if info is None:
             info = self._agg_cache[key] = self._aggregate_info(path, dest_ty)
@@ -594,6 +594,13 @@ class Interp:
 
     def _aggregate_info(self, path, dest_ty):
         p = mir.strip_generics(path)
+        cur = getattr(self, 'cur_body', None)
+        if cur is not None:
+            for pre in getattr(self, 'dep_crates', ()):
+                if cur.name.startswith(pre) and not p.startswith(('std::', 'core::', 'alloc::')) and '::' in p:
+                    head = p.split('::')[0]
+                    if head not in ('multihash', 'multiaddr', 'bytes'):
+                        return (None, pre + p, None)
         # which ADT?  prefer the declared destination type
         ty = base_ty(dest_ty) if dest_ty is not None and self.adts.has(dest_ty) else None
         vname = p.rsplit('::', 1)[-1]
@@ -1028,11 +1035,29 @@ class Interp:
             return
         idx = {}
         amb = set()
+        deps = tuple(getattr(self, 'dep_crates', ()))
         for name, b in self.bodies.items():
             m = re.match(r'^(.*?)<impl at (.*?):(\d+):(\d+): \d+:\d+>::(\w+)$', name)
             if not m:
                 continue
             modpath, file, line, col, meth = m.groups()
+            dep = next((d for d in deps if name.startswith(d)), None)
+            if dep is not None:
+                # interpreted dependency: its inherent methods are only visible from inside that crate,
+                # under the crate-prefixed key (no rustdoc table for it: the receiver / return type decides)
+                cands = set()
+                if b.args:
+                    self_ty = re.sub(r"^(&(?:'\w+ )?(?:mut )?)", '', b.args[0][1])
+                    cands.add(base_ty(self_ty))
+                rb = base_ty(re.sub(r'^std::result::Result<(.*?), .*>$', r'\1', b.ret))
+                if '::' in rb and not rb.startswith('std::'):
+                    cands.add(rb)
+                for ty in cands:
+                    key = '%s%s::%s' % (dep, ty, meth)
+                    if key in idx and idx[key] != name:
+                        amb.add(key)
+                    idx[key] = name
+                continue
             keys = []
             span_key = '%s:%s:%s' % (file, line, col)
             cands = set()
@@ -1059,6 +1084,8 @@ class Interp:
         self.method_index = idx
         self.impl_names = {}
         for name in self.bodies:
+            if name.startswith(deps):
+                continue
             m = re.match(r'^(.*?)<impl at (.*?):(\d+):(\d+): \d+:\d+>::(\w+)$', name)
             if m:
                 self.impl_names.setdefault(m.group(5), []).append(name)
@@ -1086,6 +1113,9 @@ class Interp:
                         if cand in self.bodies:
                             r = cand
                             break
+                    if r is None:
+                        self.build_index()
+                        r = self.method_index.get(pre + mir.strip_generics(callee))
         if r is None:
             r = self._resolve(callee)
         self.resolve_cache[key] = r
